@@ -1,0 +1,993 @@
+//go:build verif
+
+package list
+
+// Contracts for package list (list_op.go) — property C12 (the lazy List agrees
+// with the eager Seq computation, terminates, stays lazy), C04 (a list value is
+// persistent: observing it twice / in any demand order gives the same
+// elements), C01 (monad laws) — checked by /verif/govc.  Comment-only file.
+//
+// Almost every function here is a recursive closure over memoised thunks, so
+// the statements are bounded lemmas (`option unroll`): literal inputs of length
+// 0..3 with symbolic elements and symbolic callbacks, in four representations
+// (mk: eager list.Seq, Cons cells, Collect over a single-pass iterator,
+// Generate), observed in every demand order (obs: ToSeq, head-then-tail,
+// tail-then-head, all tails first and heads in reverse, twice in a row,
+// Unapply), and compared with the eager fp.Seq / package seq expression.
+// Laziness is stated with EqT against the minimal expression (same callbacks,
+// same arguments, same order) and with TraceLen / NoCalls.
+//
+// Obligations refuted by the unmodified code (suspected defects, kept as stated):
+// listFoldOption/{singleton,agreesWithSeq,agreesWithSeqLazy} (FoldOption does not
+// terminate), listFlatMapOncePerElement (fn applied more than once per element),
+// listFlatMapStrictlyLazy (FlatMap forces the tail of its source at construction).
+// Not covered: FromMap / FromMapKey / FromMapValue (iter.Pull is outside the
+// supported subset).
+
+//@ import "github.com/csgura/fp/iterator"
+//@ import "github.com/csgura/fp/seq"
+//
+//@ ghost
+//@ // pre(a, b, c, n): the first n (0..3) of a, b, c
+//@ func pre[T any](a, b, c T, n int) fp.Seq[T] {
+//@ 	if n <= 0 {
+//@ 		return fp.Seq[T]{}
+//@ 	}
+//@ 	if n == 1 {
+//@ 		return fp.Seq[T]{a}
+//@ 	}
+//@ 	if n == 2 {
+//@ 		return fp.Seq[T]{a, b}
+//@ 	}
+//@ 	return fp.Seq[T]{a, b, c}
+//@ }
+//@ // mk(kind, e): the list of the elements e in one of four representations
+//@ func mk[T any](kind int, e fp.Seq[T]) fp.List[T] {
+//@ 	if kind == 0 {
+//@ 		return Of(e...)
+//@ 	}
+//@ 	if kind == 1 {
+//@ 		var l fp.List[T] = Empty[T]()
+//@ 		for i := len(e) - 1; i >= 0; i-- {
+//@ 			l = Apply(e[i], l)
+//@ 		}
+//@ 		return l
+//@ 	}
+//@ 	if kind == 2 {
+//@ 		return Collect(iterator.FromSeq(e))
+//@ 	}
+//@ 	return Generate(func(i int) fp.Option[T] {
+//@ 		if i < len(e) {
+//@ 			return fp.Some(e[i])
+//@ 		}
+//@ 		return fp.None[T]()
+//@ 	})
+//@ }
+//@ func same[T any](x, y T) bool {
+//@ 	return verifspec.Eq(verifspec.W[T](x), verifspec.W[T](y))
+//@ }
+//@ // the end of a list: empty, Head panics, Tail is empty again
+//@ func atEnd[T any](l fp.List[T]) bool {
+//@ 	return l.IsEmpty() && !l.NonEmpty() && Panics(l.Head()) && l.IsEmpty() && l.Tail().IsEmpty() && !Head(l).IsDefined()
+//@ }
+//@ func seqIs[T any](got, want fp.Seq[T]) bool {
+//@ 	return verifspec.Eq(verifspec.W[fp.Seq[T]](got), verifspec.W[fp.Seq[T]](want))
+//@ }
+//@ // head first, then tail
+//@ func walkHT[T any](l fp.List[T], want fp.Seq[T]) bool {
+//@ 	got := make(fp.Seq[T], len(want))
+//@ 	again := make(fp.Seq[T], len(want))
+//@ 	for k := 0; k < len(want); k++ {
+//@ 		if l.IsEmpty() || !l.NonEmpty() {
+//@ 			return false
+//@ 		}
+//@ 		got[k] = l.Head()
+//@ 		again[k] = l.Head()
+//@ 		l = l.Tail()
+//@ 	}
+//@ 	return atEnd(l) && seqIs(got, want) && seqIs(again, want)
+//@ }
+//@ // tail first (without asking IsEmpty), then head
+//@ func walkTH[T any](l fp.List[T], want fp.Seq[T]) bool {
+//@ 	got := make(fp.Seq[T], len(want))
+//@ 	for k := 0; k < len(want); k++ {
+//@ 		t := l.Tail()
+//@ 		got[k] = l.Head()
+//@ 		if l.IsEmpty() {
+//@ 			return false
+//@ 		}
+//@ 		l = t
+//@ 	}
+//@ 	return atEnd(l) && seqIs(got, want)
+//@ }
+//@ // all tails first, then the heads from the last to the first
+//@ func walkDeep[T any](l fp.List[T], want fp.Seq[T]) bool {
+//@ 	cells := make([]fp.List[T], len(want))
+//@ 	for k := 0; k < len(want); k++ {
+//@ 		cells[k] = l
+//@ 		l = l.Tail()
+//@ 	}
+//@ 	if !atEnd(l) {
+//@ 		return false
+//@ 	}
+//@ 	got := make(fp.Seq[T], len(want))
+//@ 	for k := len(want) - 1; k >= 0; k-- {
+//@ 		got[k] = cells[k].Head()
+//@ 		if !cells[k].NonEmpty() {
+//@ 			return false
+//@ 		}
+//@ 	}
+//@ 	return seqIs(got, want)
+//@ }
+//@ func walkUnapply[T any](l fp.List[T], want fp.Seq[T]) bool {
+//@ 	got := make(fp.Seq[T], len(want))
+//@ 	for k := 0; k < len(want); k++ {
+//@ 		h, t := l.Unapply()
+//@ 		got[k] = h
+//@ 		l = t
+//@ 	}
+//@ 	return atEnd(l) && seqIs(got, want)
+//@ }
+//@ func toSeqIs[T any](l fp.List[T], want fp.Seq[T]) bool {
+//@ 	return verifspec.Eq(verifspec.W[fp.Seq[T]](fp.Seq[T](l.ToSeq())), verifspec.W[fp.Seq[T]](want))
+//@ }
+//@ // obs(f, want): the list built by f has exactly the elements want, in every demand order, and
+//@ // observing one list value repeatedly gives the same answer (persistence).  ToSeq comes last and
+//@ // once: every append in ListAdaptor.ToSeq forks the symbolic execution on the capacity.
+//@ func obs[T any](f func() fp.List[T], want fp.Seq[T]) bool {
+//@ 	if !walkHT(f(), want) || !walkTH(f(), want) || !walkDeep(f(), want) || !walkUnapply(f(), want) {
+//@ 		return false
+//@ 	}
+//@ 	l := f()
+//@ 	if !walkDeep(l, want) || !walkHT(l, want) || !walkTH(l, want) {
+//@ 		return false
+//@ 	}
+//@ 	return toSeqIs(f(), want)
+//@ }
+//@ // obsLite: the cheaper selection used where obs exceeds the verifier's step budget
+//@ func obsLite[T any](f func() fp.List[T], want fp.Seq[T]) bool {
+//@ 	if !walkDeep(f(), want) {
+//@ 		return false
+//@ 	}
+//@ 	l := f()
+//@ 	if !walkHT(l, want) || !walkTH(l, want) {
+//@ 		return false
+//@ 	}
+//@ 	return toSeqIs(f(), want)
+//@ }
+//@ // the same list value observed by ToSeq twice and walked in between
+//@ func obsTwice[T any](l fp.List[T], want fp.Seq[T]) bool {
+//@ 	return toSeqIs(l, want) && walkTH(l, want) && toSeqIs(l, want)
+//@ }
+//@ end
+//
+// ---------------------------------------------------------------------------
+// Constructors and the four representations (methods of Nil, Cons, Seq and of
+// fp.ListAdaptor as produced by Collect / Generate).
+//
+//@ lemma listSources[T any](a, b, c T, n int, f func(T))
+//@   prop C12 C04
+//@   option unroll
+//@   requires 0 <= n && n <= 3
+//@   ensures obs(func() fp.List[T] { return mk(0, pre(a, b, c, n)) }, pre(a, b, c, n))
+//@   tag seq
+//@   ensures obs(func() fp.List[T] { return mk(1, pre(a, b, c, n)) }, pre(a, b, c, n))
+//@   tag cons
+//@   ensures obs(func() fp.List[T] { return mk(2, pre(a, b, c, n)) }, pre(a, b, c, n))
+//@   tag collect
+//@   ensures obs(func() fp.List[T] { return mk(3, pre(a, b, c, n)) }, pre(a, b, c, n))
+//@   tag generate
+//@   ensures obs(func() fp.List[T] { return FromSeq(pre(a, b, c, n)) }, pre(a, b, c, n)) && obs(func() fp.List[T] { return FromSlice(pre(a, b, c, n)) }, pre(a, b, c, n))
+//@   tag fromSeq
+//@   ensures obsTwice(mk(0, pre(a, b, c, n)), pre(a, b, c, n)) && obsTwice(mk(1, pre(a, b, c, n)), pre(a, b, c, n))
+//@   tag toSeqTwiceEager
+//@   ensures obsTwice(mk(2, pre(a, b, c, n)), pre(a, b, c, n))
+//@   tag toSeqTwiceCollect
+//@   ensures obsTwice(mk(3, pre(a, b, c, n)), pre(a, b, c, n))
+//@   tag toSeqTwiceGenerate
+//@   ensures atEnd(Empty[T]()) && toSeqIs(Empty[T](), fp.Seq[T]{}) && atEnd(Of[T]()) && atEnd(FromSeq[T](nil)) && Panics(verifspec.P2(Empty[T]().Unapply())) && Panics(verifspec.P2(Of[T]().Unapply()))
+//@   tag empty
+//@   ensures EqT(verifspec.Do(func() { mk(0, pre(a, b, c, n)).Foreach(f) }), verifspec.Do(func() { pre(a, b, c, n).Foreach(f) }))
+//@   tag foreachSeq
+//@   ensures EqT(verifspec.Do(func() { mk(1, pre(a, b, c, n)).Foreach(f) }), verifspec.Do(func() { pre(a, b, c, n).Foreach(f) }))
+//@   tag foreachCons
+//@   ensures EqT(verifspec.Do(func() { mk(2, pre(a, b, c, n)).Foreach(f) }), verifspec.Do(func() { pre(a, b, c, n).Foreach(f) }))
+//@   tag foreachCollect
+//@   ensures EqT(verifspec.Do(func() { mk(3, pre(a, b, c, n)).Foreach(f) }), verifspec.Do(func() { pre(a, b, c, n).Foreach(f) }))
+//@   tag foreachGenerate
+//@   ensures Eq(Head(mk(0, pre(a, b, c, n))), pre(a, b, c, n).Head()) && Eq(Head(mk(1, pre(a, b, c, n))), pre(a, b, c, n).Head()) && Eq(Head(mk(2, pre(a, b, c, n))), pre(a, b, c, n).Head()) && Eq(Head(mk(3, pre(a, b, c, n))), pre(a, b, c, n).Head())
+//@   tag headOption
+//
+// Cons cells (Apply / Concat are not recursive: unbounded statements).
+//
+//@ func Apply(head, tail) result
+//@   prop C12 C04
+//@   ensures !result.IsEmpty() && result.NonEmpty() && Eq(result.Head(), head) && result.Tail() == tail
+//@   ensures NoCalls()
+//
+//@ func Concat(head, tail) result
+//@   prop C12 C04
+//@   ensures !result.IsEmpty() && result.NonEmpty() && Eq(result.Head(), head) && result.Tail() == tail
+//
+//@ func Head(l) result
+//@   prop C12
+//@   ensures result.IsDefined() == !l.IsEmpty()
+//@   ensures !l.IsEmpty() ==> Eq(result, fp.Some(l.Head()))
+//
+// ---------------------------------------------------------------------------
+// Collect over an arbitrary single-pass source (unbounded): construction pulls
+// exactly the first element, every forced Tail exactly one more, in source
+// order, whatever the order in which heads and tails are demanded.
+//
+//@ func Collect(itr) result
+//@   prop C12 C20
+//@   ensures IterLen(itr) > 0 ==> IterPos(itr) == 1 && !result.IsEmpty() && Eq(result.Head(), verifspec.IterAt[T](itr, 0)) && IterPos(itr) == 1
+//@   tag headPulledAtConstruction
+//@   ensures IterLen(itr) == 0 ==> IterPos(itr) == 0 && result.IsEmpty() && Panics(result.Head())
+//@   tag emptySource
+//
+//@ ghost
+//@ func collectOrder[T any](r fp.Iterator[T], mode int) bool {
+//@ 	n := verifspec.IterLen(r)
+//@ 	l0 := Collect(r)
+//@ 	if n < 3 {
+//@ 		return true
+//@ 	}
+//@ 	if mode == 0 {
+//@ 		// tails first, heads afterwards in reverse
+//@ 		l1 := l0.Tail()
+//@ 		l2 := l1.Tail()
+//@ 		if verifspec.IterPos(r) != 3 {
+//@ 			return false
+//@ 		}
+//@ 		h2 := l2.Head()
+//@ 		h1 := l1.Head()
+//@ 		h0 := l0.Head()
+//@ 		return same(h0, verifspec.IterAt[T](r, 0)) && same(h1, verifspec.IterAt[T](r, 1)) && same(h2, verifspec.IterAt[T](r, 2)) && verifspec.IterPos(r) == 3
+//@ 	}
+//@ 	if mode == 1 {
+//@ 		// Tail is memoised: forcing it twice pulls once, both results are the same cell
+//@ 		l1 := l0.Tail()
+//@ 		l1b := l0.Tail()
+//@ 		return verifspec.IterPos(r) == 2 && same(l1.Head(), verifspec.IterAt[T](r, 1)) && same(l1b.Head(), verifspec.IterAt[T](r, 1)) && verifspec.IterPos(r) == 2
+//@ 	}
+//@ 	// heads and emptiness tests pull nothing
+//@ 	h0 := l0.Head()
+//@ 	e0 := l0.IsEmpty()
+//@ 	return !e0 && same(h0, verifspec.IterAt[T](r, 0)) && verifspec.IterPos(r) == 1 && same(l0.Tail().Head(), verifspec.IterAt[T](r, 1)) && verifspec.IterPos(r) == 2 && same(l0.Head(), verifspec.IterAt[T](r, 0))
+//@ }
+//@ func collectEnd[T any](r fp.Iterator[T]) bool {
+//@ 	n := verifspec.IterLen(r)
+//@ 	l0 := Collect(r)
+//@ 	if n != 1 {
+//@ 		return true
+//@ 	}
+//@ 	l1 := l0.Tail()
+//@ 	return l1.IsEmpty() && verifspec.IterPos(r) == 1 && l1.Tail().IsEmpty() && Panics(l1.Head()) && same(l0.Head(), verifspec.IterAt[T](r, 0))
+//@ }
+//@ end
+//
+//@ lemma listCollectOrder[T any](r fp.Iterator[T])
+//@   prop C12 C20 C04
+//@   ensures collectOrder(r, 0)
+//@   tag tailsFirst
+//@   ensures collectOrder(r, 1)
+//@   tag tailMemoised
+//@   ensures collectOrder(r, 2)
+//@   tag headsPullNothing
+//@   ensures collectEnd(r)
+//@   tag end
+//
+// ---------------------------------------------------------------------------
+// Map
+//
+//@ ghost
+//@ // gen(g, n): the lazy list g(0), …, g(n-1); element i is evaluated (once) when cell i is inspected
+//@ func gen[T any](g func(int) T, n int) fp.List[T] {
+//@ 	return Generate(func(i int) fp.Option[T] {
+//@ 		if i < n {
+//@ 			return fp.Some(g(i))
+//@ 		}
+//@ 		return fp.None[T]()
+//@ 	})
+//@ }
+//@ end
+//
+//@ lemma listMap[T, U any](a, b, c T, n int, fn func(T) U)
+//@   prop C12 C04
+//@   option unroll
+//@   requires 0 <= n && n <= 3
+//@   ensures obs(func() fp.List[U] { return Map(mk(0, pre(a, b, c, n)), fn) }, seq.Map(pre(a, b, c, n), fn))
+//@   tag seq
+//@   ensures obs(func() fp.List[U] { return Map(mk(1, pre(a, b, c, n)), fn) }, seq.Map(pre(a, b, c, n), fn))
+//@   tag cons
+//@   ensures obs(func() fp.List[U] { return Map(mk(2, pre(a, b, c, n)), fn) }, seq.Map(pre(a, b, c, n), fn))
+//@   tag collect
+//@   ensures obs(func() fp.List[U] { return Map(mk(3, pre(a, b, c, n)), fn) }, seq.Map(pre(a, b, c, n), fn))
+//@   tag generate
+//@   ensures obs(func() fp.List[U] { return Lift(fn)(mk(2, pre(a, b, c, n))) }, seq.Map(pre(a, b, c, n), fn))
+//@   tag lift
+//
+//@ lemma listMapLazy[T, U any](g func(int) T, fn func(T) U)
+//@   prop C12
+//@   option unroll
+//@   ensures verifspec.Do(func() { Map(gen(g, 3), fn).Tail().Tail() }) == 0 && TraceLen() == 0
+//@   tag constructionAndTailsEvaluateNothing
+//@   ensures EqT(Map(gen(g, 3), fn).Tail().Head(), fn(g(1)))
+//@   tag secondElementOnly
+//@   ensures EqT(verifspec.Do(func() { l := Map(gen(g, 3), fn); l.Head(); l.IsEmpty(); l.Head(); l.NonEmpty() }), verifspec.Do(func() { fn(g(0)) }))
+//@   tag memoised
+//@   ensures EqT(Map(gen(g, 1), fn).Tail().IsEmpty(), true)
+//@   tag endNeedsNoElement
+//
+// ---------------------------------------------------------------------------
+// The methods of list.Seq (unbounded): ToSeq copies (C04: the list handed in is
+// never aliased by the result).
+//
+//@ func (Seq).ToSeq(r) result
+//@   prop C04 C12
+//@   ensures len(result) == len(r)
+//@   ensures forall i int :: 0 <= i && i < len(r) ==> Eq(result[i], r[i])
+//@   ensures (len(r) > 0 ==> Fresh(result)) && Unchanged()
+//
+//@ func (Seq).Head(r) result
+//@   prop C12
+//@   requires len(r) > 0
+//@   ensures Eq(result, r[0])
+//
+//@ func (Seq).Tail(r) result
+//@   prop C12 C04
+//@   ensures len(r) <= 1 ==> result.IsEmpty()
+//@   ensures len(r) > 1 ==> !result.IsEmpty() && Eq(result.Head(), r[1]) && Eq(fp.Seq[T](result.ToSeq()), fp.Seq[T](r[1:]))
+//@   ensures Unchanged()
+//
+// ---------------------------------------------------------------------------
+// Generators: Generate / GenerateFrom / Recurrence1 / Recurrence2 / Range /
+// RangeClosed (unbounded in the start index / the seed; a finite prefix of an
+// infinite list is computed with exactly the generator calls it needs).
+//
+//@ lemma listGenerateFrom[T any](s int, g func(int) fp.Option[T])
+//@   prop C12
+//@   ensures verifspec.Do(func() { GenerateFrom(s, g).Tail().Tail().Tail() }) == 0 && TraceLen() == 0
+//@   tag tailsCallNothing
+//@   ensures EqT(GenerateFrom(s, g).IsEmpty(), !g(s).IsDefined())
+//@   tag isEmpty
+//@   ensures g(s).IsDefined() ==> EqT(GenerateFrom(s, g).Head(), g(s).Get())
+//@   tag head
+//@   ensures g(s+2).IsDefined() ==> EqT(GenerateFrom(s, g).Tail().Tail().Head(), g(s+2).Get())
+//@   tag thirdOnly
+//@   ensures !g(s+1).IsDefined() ==> !GenerateFrom(s, g).Tail().NonEmpty() && GenerateFrom(s, g).Tail().IsEmpty() && Panics(GenerateFrom(s, g).Tail().Head())
+//@   tag end
+//@   ensures EqT(verifspec.Do(func() { l := GenerateFrom(s, g); l.IsEmpty(); l.NonEmpty(); l.IsEmpty(); Head(l) }), verifspec.Do(func() { g(s) }))
+//@   tag memoised
+//@   ensures EqT(Head(Generate(g).Tail()), g(1))
+//@   tag generateStartsAtZero
+//
+// (Recurrence2 computes relation(a1, a2) when the first Tail is forced, i.e. it runs one relation
+// step ahead of the demanded prefix: the fourth element costs three calls, not two — stated as is.)
+//
+//@ ghost
+//@ func rec2Calls[T any](a1, a2 T, r2 func(T, T) T) bool {
+//@ 	l := Recurrence2(a1, a2, r2)
+//@ 	l.Head()
+//@ 	if verifspec.TraceLen() != 0 {
+//@ 		return false
+//@ 	}
+//@ 	l.Tail().Head()
+//@ 	if verifspec.TraceLen() > 1 {
+//@ 		return false
+//@ 	}
+//@ 	l.Tail().Tail().Tail().Head()
+//@ 	l.Tail().Tail().Head()
+//@ 	return verifspec.TraceLen() <= 3
+//@ }
+//@ end
+//
+//@ lemma listRecurrence[T any](a1, a2 T, r1 func(T) T, r2 func(T, T) T)
+//@   prop C12
+//@   ensures EqT(Recurrence1(a1, r1).Head(), a1) && !Recurrence1(a1, r1).IsEmpty()
+//@   tag rec1Head
+//@   ensures EqT(Recurrence1(a1, r1).Tail().Head(), r1(a1))
+//@   tag rec1Second
+//@   ensures EqT(Recurrence1(a1, r1).Tail().Tail().Tail().Head(), r1(r1(r1(a1))))
+//@   tag rec1Fourth
+//@   ensures EqT(Recurrence2(a1, a2, r2).Head(), a1) && !Recurrence2(a1, a2, r2).IsEmpty()
+//@   tag rec2Head
+//@   ensures Eq(Recurrence2(a1, a2, r2).Tail().Head(), a2)
+//@   tag rec2Second
+//@   ensures Eq(Recurrence2(a1, a2, r2).Tail().Tail().Tail().Head(), r2(a2, r2(a1, a2)))
+//@   tag rec2Fourth
+//@   ensures Eq(Recurrence2(a1, a2, r2).Tail().Tail().Head(), r2(a1, a2))
+//@   tag rec2Third
+//@   ensures rec2Calls(a1, a2, r2)
+//@   tag rec2AtMostOneStepAhead
+//@   ensures EqT(verifspec.Do(func() { l := Recurrence2(a1, a2, r2); l.Tail().Tail(); l.Tail().Tail().Head(); l.Tail().Head() }), verifspec.Do(func() { r2(a2, r2(a1, a2)) }))
+//@   tag rec2Memoised
+//
+//@ lemma listRange(from, to int)
+//@   prop C12
+//@   ensures Range(from, to).IsEmpty() == (from >= to) && RangeClosed(from, to).IsEmpty() == (from > to)
+//@   tag empty
+//@   ensures from < to ==> Range(from, to).Head() == from
+//@   ensures from <= to ==> RangeClosed(from, to).Head() == from
+//@   ensures from+2 < to ==> Range(from, to).Tail().Tail().Head() == from+2
+//@   ensures from+2 <= to ==> RangeClosed(from, to).Tail().Tail().Head() == from+2
+//@   ensures from+2 == to ==> Range(from, to).Tail().Tail().IsEmpty() && !Range(from, to).Tail().IsEmpty()
+//@   ensures from+1 == to ==> RangeClosed(from, to).Tail().Tail().IsEmpty() && !RangeClosed(from, to).Tail().IsEmpty()
+//
+//@ lemma listRangeBounded()
+//@   prop C12
+//@   option unroll
+//@   ensures obs(func() fp.List[int] { return Range(2, 5) }, fp.Seq[int]{2, 3, 4})
+//@   ensures obs(func() fp.List[int] { return RangeClosed(2, 4) }, fp.Seq[int]{2, 3, 4})
+//@   ensures obs(func() fp.List[int] { return Range(-1, 1) }, fp.Seq[int]{-1, 0})
+//@   ensures atEnd(Range(5, 5)) && atEnd(Range(5, 2)) && atEnd(RangeClosed(5, 4)) && toSeqIs(RangeClosed(5, 5), fp.Seq[int]{5})
+//
+// ---------------------------------------------------------------------------
+// ReverseSeq / ReverseSlice / FromPtr / FromOption
+//
+//@ lemma listReverse[T any](a, b, c T, n int)
+//@   prop C12 C04
+//@   option unroll
+//@   requires 0 <= n && n <= 3
+//@   ensures obs(func() fp.List[T] { return ReverseSeq(pre(a, b, c, n)) }, pre(a, b, c, n).Reverse())
+//@   tag reverseSeq
+//@   ensures obs(func() fp.List[T] { return ReverseSlice(pre(a, b, c, n)) }, pre(a, b, c, n).Reverse())
+//@   tag reverseSlice
+//@   ensures walkDeep(ReverseSeq(fp.Seq[T]{a, b, c}), fp.Seq[T]{c, b, a}) && Unchanged()
+//@   tag inputNotWritten
+//
+//@ lemma listFromOptionPtr[T any](o fp.Option[T], p *T)
+//@   prop C12
+//@   option unroll
+//@   ensures obs(func() fp.List[T] { return FromOption(o) }, fp.Seq[T](o.ToSeq()))
+//@   tag fromOption
+//@   ensures p == nil ==> atEnd(FromPtr(p))
+//@   tag fromNilPtr
+//@   ensures p != nil ==> obs(func() fp.List[T] { return FromPtr(p) }, fp.Seq[T]{*p}) && Unchanged()
+//@   tag fromPtr
+//
+// ---------------------------------------------------------------------------
+// Combine (append of two lists)
+//
+//@ lemma listCombine[T any](a, b, c, x, y T, n int)
+//@   prop C12 C04
+//@   option unroll
+//@   requires 0 <= n && n <= 3
+//@   ensures obs(func() fp.List[T] { return Combine(mk(0, pre(a, b, c, n)), mk(2, fp.Seq[T]{x, y})) }, pre(a, b, c, n).Concat(fp.Seq[T]{x, y}))
+//@   tag seqCollect
+//@   ensures obs(func() fp.List[T] { return Combine(mk(2, pre(a, b, c, n)), mk(3, fp.Seq[T]{x, y})) }, pre(a, b, c, n).Concat(fp.Seq[T]{x, y}))
+//@   tag collectGenerate
+//@   ensures obs(func() fp.List[T] { return Combine(mk(3, fp.Seq[T]{x, y}), mk(1, pre(a, b, c, n))) }, fp.Seq[T]{x, y}.Concat(pre(a, b, c, n)))
+//@   tag generateCons
+//@   ensures obs(func() fp.List[T] { return Combine(mk(1, pre(a, b, c, n)), mk(0, fp.Seq[T]{})) }, pre(a, b, c, n))
+//@   tag rightEmpty
+//@   ensures obs(func() fp.List[T] { return Combine(mk(3, fp.Seq[T]{}), mk(2, pre(a, b, c, n))) }, pre(a, b, c, n))
+//@   tag leftEmpty
+//@   ensures obs(func() fp.List[T] { return Combine(Combine(mk(2, fp.Seq[T]{x}), mk(3, pre(a, b, c, n))), mk(2, fp.Seq[T]{y})) }, fp.Seq[T]{x}.Concat(pre(a, b, c, n)).Add(y))
+//@   tag nested
+//
+//@ lemma listCombineLazy[T any](g, h func(int) T)
+//@   prop C12
+//@   option unroll
+//@   ensures EqT(verifspec.Do(func() { Combine(gen(g, 3), gen(h, 3)) }), verifspec.Do(func() { g(0) }))
+//@   tag constructionInspectsFirstCellOnly
+//@   ensures EqT(Combine(gen(g, 2), gen(h, 3)).Tail().Tail().Head(), func() T { g(0); g(1); return h(0) }())
+//@   tag secondListTouchedOnlyWhenReached
+//@   ensures EqT(Combine(gen(g, 0), gen(h, 3)).Tail().Head(), h(1))
+//@   tag leftEmpty
+//
+// ---------------------------------------------------------------------------
+// Zip / Zip3 / ZipWithIndex
+//
+//@ lemma listZip[T, U any](a, b, c T, x, y, z U, n int)
+//@   prop C12 C04
+//@   option unroll
+//@   requires 0 <= n && n <= 3
+//@   ensures obs(func() fp.List[fp.Tuple2[T, U]] { return Zip(mk(0, pre(a, b, c, n)), mk(2, fp.Seq[U]{x, y})) }, seq.Zip(pre(a, b, c, n), fp.Seq[U]{x, y}))
+//@   tag seqCollect
+//@   ensures obs(func() fp.List[fp.Tuple2[U, T]] { return Zip(mk(3, fp.Seq[U]{x, y}), mk(2, pre(a, b, c, n))) }, seq.Zip(fp.Seq[U]{x, y}, pre(a, b, c, n)))
+//@   tag generateCollect
+//@   ensures obs(func() fp.List[fp.Tuple2[T, U]] { return Zip(mk(2, pre(a, b, c, n)), mk(1, fp.Seq[U]{x, y, z})) }, seq.Zip(pre(a, b, c, n), fp.Seq[U]{x, y, z}))
+//@   tag collectCons
+//@   ensures obs(func() fp.List[fp.Tuple2[int, T]] { return ZipWithIndex(mk(2, pre(a, b, c, n))) }, seq.ZipWithIndex(pre(a, b, c, n)))
+//@   tag zipWithIndexCollect
+//@   ensures obs(func() fp.List[fp.Tuple2[int, T]] { return ZipWithIndex(mk(0, pre(a, b, c, n))) }, seq.ZipWithIndex(pre(a, b, c, n)))
+//@   tag zipWithIndexSeq
+//@   ensures obs(func() fp.List[fp.Tuple3[T, U, T]] { return Zip3(mk(2, pre(a, b, c, n)), mk(3, fp.Seq[U]{x, y}), mk(0, fp.Seq[T]{c, a, b})) }, seq.Map(seq.Zip(seq.Zip(pre(a, b, c, n), fp.Seq[U]{x, y}), fp.Seq[T]{c, a, b}), func(t fp.Tuple2[fp.Tuple2[T, U], T]) fp.Tuple3[T, U, T] { return fp.Tuple3[T, U, T]{I1: t.I1.I1, I2: t.I1.I2, I3: t.I2} }))
+//@   tag zip3
+//
+//@ lemma listZipLazy[T, U any](g func(int) T, h func(int) U)
+//@   prop C12
+//@   option unroll
+//@   ensures verifspec.Do(func() { Zip(gen(g, 3), gen(h, 3)).Tail().Tail(); ZipWithIndex(gen(g, 3)).Tail(); Zip3(gen(g, 3), gen(h, 3), gen(g, 3)).Tail() }) == 0 && TraceLen() == 0
+//@   tag constructionAndTailsEvaluateNothing
+//@   ensures EqT(Zip(gen(g, 3), gen(h, 3)).Tail().Head(), fp.Tuple2[T, U]{I1: g(1), I2: h(1)})
+//@   tag secondPairOnly
+//@   ensures EqT(ZipWithIndex(gen(g, 3)).Tail().Tail().Head(), fp.Tuple2[int, T]{I1: 2, I2: g(2)})
+//@   tag indexedThirdOnly
+//
+// ---------------------------------------------------------------------------
+// Scan
+//
+//@ lemma listScan[A, B any](a, b, c A, n int, zero B, f func(B, A) B)
+//@   prop C12 C04
+//@   option unroll
+//@   requires 0 <= n && n <= 3
+//@   ensures obs(func() fp.List[B] { return Scan(mk(0, pre(a, b, c, n)), zero, f) }, seq.Scan(pre(a, b, c, n), zero, f))
+//@   tag seq
+//@   ensures obs(func() fp.List[B] { return Scan(mk(1, pre(a, b, c, n)), zero, f) }, seq.Scan(pre(a, b, c, n), zero, f))
+//@   tag cons
+//@   ensures obs(func() fp.List[B] { return Scan(mk(2, pre(a, b, c, n)), zero, f) }, seq.Scan(pre(a, b, c, n), zero, f))
+//@   tag collect
+//@   ensures obs(func() fp.List[B] { return Scan(mk(3, pre(a, b, c, n)), zero, f) }, seq.Scan(pre(a, b, c, n), zero, f))
+//@   tag generate
+//
+//@ lemma listScanLazy[A, B any](g func(int) A, zero B, f func(B, A) B)
+//@   prop C12
+//@   option unroll
+//@   ensures EqT(Scan(gen(g, 3), zero, f).Head(), zero)
+//@   tag headIsZero
+//@   ensures EqT(Scan(gen(g, 3), zero, f).Tail().Tail().Head(), f(f(zero, g(0)), g(1)))
+//@   tag thirdNeedsTwoElements
+//
+// ---------------------------------------------------------------------------
+// FlatMap / FilterMap / Flatten / Map2 / Ap / Compose / ComposePure / Flap /
+// Flap2 / FlapMap / Method1 / Method2
+//
+//@ ghost
+//@ // an inner list of length 2 (q true) or 0 (q false), in representation kind
+//@ func inner2[T, U any](kind int, q func(T) bool, g, h func(T) U) func(T) fp.List[U] {
+//@ 	return func(t T) fp.List[U] {
+//@ 		if q(t) {
+//@ 			return mk(kind, fp.Seq[U]{g(t), h(t)})
+//@ 		}
+//@ 		return mk(kind, fp.Seq[U]{})
+//@ 	}
+//@ }
+//@ func inner2Seq[T, U any](q func(T) bool, g, h func(T) U) func(T) fp.Seq[U] {
+//@ 	return func(t T) fp.Seq[U] {
+//@ 		if q(t) {
+//@ 			return fp.Seq[U]{g(t), h(t)}
+//@ 		}
+//@ 		return fp.Seq[U]{}
+//@ 	}
+//@ }
+//@ end
+//
+//@ lemma listFlatMap[T, U any](a, b, c T, n int, q func(T) bool, g, h func(T) U)
+//@   prop C12 C04
+//@   option unroll
+//@   requires 0 <= n && n <= 3
+//@   ensures obsLite(func() fp.List[U] { return FlatMap(mk(0, pre(a, b, c, n)), inner2(2, q, g, h)) }, seq.FlatMap(pre(a, b, c, n), inner2Seq(q, g, h)))
+//@   tag seqOfCollect
+//@   ensures obsLite(func() fp.List[U] { return FlatMap(mk(2, pre(a, b, c, n)), inner2(3, q, g, h)) }, seq.FlatMap(pre(a, b, c, n), inner2Seq(q, g, h)))
+//@   tag collectOfGenerate
+//@   ensures obsLite(func() fp.List[U] { return FlatMap(mk(3, pre(a, b, c, n)), inner2(0, q, g, h)) }, seq.FlatMap(pre(a, b, c, n), inner2Seq(q, g, h)))
+//@   tag generateOfSeq
+//@   ensures obsLite(func() fp.List[U] { return FlatMap(mk(1, pre(a, b, c, n)), inner2(1, q, g, h)) }, seq.FlatMap(pre(a, b, c, n), inner2Seq(q, g, h)))
+//@   tag consOfCons
+//
+//@ lemma listFlatMapLazy[T, U any](g func(int) T, k func(T) U, q func(T) bool, fl func(T) fp.List[U])
+//@   prop C12
+//@   option unroll
+//@   ensures EqT(verifspec.Do(func() { FlatMap(gen(g, 3), fl) }), verifspec.Do(func() { g(0) }))
+//@   tag constructionInspectsFirstCellOnly
+//@   ensures EqT(FlatMap(gen(g, 3), func(t T) fp.List[U] { return Of(k(t)) }).Head(), k(g(0)))
+//@   tag headNeedsFirstOnly
+//@   ensures EqT(FlatMap(gen(g, 3), func(t T) fp.List[U] { return Of(k(t)) }).Tail().Head(), func() U { k(g(0)); return k(g(1)) }())
+//@   tag secondNeedsTwo
+//@   ensures EqT(verifspec.Do(func() { l := FlatMap(gen(g, 3), func(t T) fp.List[U] { return Of(k(t)) }); l.Head(); l.Tail().Head(); l.Head(); l.Tail().Tail() }), verifspec.Do(func() { k(g(0)); k(g(1)); g(2) }))
+//@   tag memoised
+//
+// SUSPECTED DEFECT (reported; refuted by the unmodified code): fn should be applied once per
+// source element.  When an inner list is empty the head thunk and the tail thunk each build
+// their own FlatMap(tail, fn), so fn is applied again to the following elements
+// (list.FlatMap(list.Of(0, 0, 0, 1, 2), fn).ToSeq() applies fn 5 times to the first 0 … ).
+//
+//@ lemma listFlatMapOncePerElement[T, U any](g func(int) T, k func(T) U, q func(T) bool)
+//@   prop C12
+//@   option unroll
+//@   requires !q(g(0)) && q(g(1))
+//@   ensures EqT(verifspec.Do(func() { l := FlatMap(gen(g, 2), func(t T) fp.List[U] { if q(t) { return Of(k(t)) }; return Empty[U]() }); l.Head(); l.Tail().IsEmpty() }), verifspec.Do(func() { q(g(0)); if q(g(1)) { k(g(1)) } }))
+//
+//@ lemma listFilterMap[T, U any](a, b, c T, n int, fo func(T) fp.Option[U])
+//@   prop C12 C04
+//@   option unroll
+//@   requires 0 <= n && n <= 3
+//@   ensures obsLite(func() fp.List[U] { return FilterMap(mk(0, pre(a, b, c, n)), fo) }, seq.FilterMap(pre(a, b, c, n), fo))
+//@   tag seq
+//@   ensures obsLite(func() fp.List[U] { return FilterMap(mk(2, pre(a, b, c, n)), fo) }, seq.FilterMap(pre(a, b, c, n), fo))
+//@   tag collect
+//@   ensures obsLite(func() fp.List[U] { return FilterMap(mk(3, pre(a, b, c, n)), fo) }, seq.FilterMap(pre(a, b, c, n), fo))
+//@   tag generate
+//
+//@ lemma listFlatten[T any](a, b, c, d T, n int)
+//@   prop C12 C04
+//@   option unroll
+//@   requires 0 <= n && n <= 3
+//@   ensures obsLite(func() fp.List[T] { return Flatten(mk(2, fp.Seq[fp.List[T]]{mk(0, pre(a, b, c, n)), mk(3, fp.Seq[T]{}), mk(2, fp.Seq[T]{d})})) }, pre(a, b, c, n).Add(d))
+//@   tag collectOuter
+//@   ensures obsLite(func() fp.List[T] { return Flatten(mk(0, fp.Seq[fp.List[T]]{mk(1, fp.Seq[T]{}), mk(3, pre(a, b, c, n)), mk(0, fp.Seq[T]{d, d}), mk(2, fp.Seq[T]{})})) }, pre(a, b, c, n).Add(d).Add(d))
+//@   tag seqOuter
+//@   ensures atEnd(Flatten(mk(3, fp.Seq[fp.List[T]]{mk(1, fp.Seq[T]{}), mk(2, fp.Seq[T]{})}))) && atEnd(Flatten(Empty[fp.List[T]]()))
+//@   tag allEmpty
+//
+//@ lemma listMap2Ap[A, B, R any](a0, a1, a2 A, n int, b0, b1 B, f func(A, B) R, g0, g1 fp.Func1[A, R])
+//@   prop C12 C04
+//@   option unroll
+//@   requires 0 <= n && n <= 3
+//@   ensures obsLite(func() fp.List[R] { return Map2(mk(2, pre(a0, a1, a2, n)), mk(3, fp.Seq[B]{b0, b1}), f) }, seq.Map2(pre(a0, a1, a2, n), fp.Seq[B]{b0, b1}, f))
+//@   tag map2
+//@   ensures obsLite(func() fp.List[R] { return Map2(mk(0, fp.Seq[A]{a0, a1}), mk(2, fp.Seq[B]{b0, b1}), f) }, fp.Seq[R]{f(a0, b0), f(a0, b1), f(a1, b0), f(a1, b1)})
+//@   tag map2SharedSecond
+//@   ensures obsLite(func() fp.List[R] { return Ap(mk(3, fp.Seq[fp.Func1[A, R]]{g0, g1}), mk(2, pre(a0, a1, a2, n))) }, seq.Ap(fp.Seq[fp.Func1[A, R]]{g0, g1}, pre(a0, a1, a2, n)))
+//@   tag ap
+//@   ensures obsLite(func() fp.List[R] { return Flap(mk(2, fp.Seq[fp.Func1[A, R]]{g0, g1}))(a0) }, fp.Seq[R]{g0(a0), g1(a0)})
+//@   tag flap
+//@   ensures obsLite(func() fp.List[R] { return FlapMap(f, mk(2, pre(a0, a1, a2, n)))(b0) }, seq.Map(pre(a0, a1, a2, n), func(x A) R { return f(x, b0) }))
+//@   tag flapMap
+//@   ensures obsLite(func() fp.List[R] { return Method1(mk(3, pre(a0, a1, a2, n)), f)(b0) }, seq.Map(pre(a0, a1, a2, n), func(x A) R { return f(x, b0) }))
+//@   tag method1
+//
+//@ lemma listMethod2Flap2[A, B, C, R any](a0, a1 A, b B, c C, f3 func(A, B, C) R, h0, h1 fp.Func1[A, fp.Func1[B, R]])
+//@   prop C12
+//@   option unroll
+//@   ensures obsLite(func() fp.List[R] { return Method2(mk(2, fp.Seq[A]{a0, a1}), f3)(b, c) }, fp.Seq[R]{f3(a0, b, c), f3(a1, b, c)})
+//@   tag method2
+//@   ensures obsLite(func() fp.List[R] { return Flap2(mk(2, fp.Seq[fp.Func1[A, fp.Func1[B, R]]]{h0, h1}))(a0)(b) }, fp.Seq[R]{h0(a0)(b), h1(a0)(b)})
+//@   tag flap2
+//
+//@ lemma listCompose[A, B, C any](x A, n int, f1a, f1b, f1c func(A) B, f2a, f2b func(B) C, fab func(A) B)
+//@   prop C12 C01
+//@   option unroll
+//@   requires 0 <= n && n <= 3
+//@   ensures obsLite(func() fp.List[C] { return Compose(func(v A) fp.List[B] { return mk(2, pre(f1a(v), f1b(v), f1c(v), n)) }, func(w B) fp.List[C] { return mk(3, fp.Seq[C]{f2a(w), f2b(w)}) })(x) }, seq.FlatMap(pre(f1a(x), f1b(x), f1c(x), n), func(w B) fp.Seq[C] { return fp.Seq[C]{f2a(w), f2b(w)} }))
+//@   tag compose
+//@   ensures obs(func() fp.List[B] { return ComposePure(fab)(x) }, fp.Seq[B]{fab(x)})
+//@   tag composePure
+//
+// Monad laws (bounded): left / right identity, associativity, Map = FlatMap∘unit.
+//
+//@ lemma listMonadLaws[T, U, W any](a, b, c T, n int, q func(T) bool, g, h func(T) U, k func(U) W)
+//@   prop C01 C12
+//@   option unroll
+//@   requires 0 <= n && n <= 3
+//@   ensures obsLite(func() fp.List[U] { return FlatMap(Of(a), inner2(2, q, g, h)) }, fp.Seq[U](inner2(2, q, g, h)(a).ToSeq()))
+//@   tag leftIdentity
+//@   ensures obsLite(func() fp.List[T] { return FlatMap(mk(2, pre(a, b, c, n)), func(t T) fp.List[T] { return Of(t) }) }, pre(a, b, c, n))
+//@   tag rightIdentity
+//@   ensures Eq(fp.Seq[W](FlatMap(FlatMap(mk(2, fp.Seq[T]{a, b}), inner2(0, q, g, h)), func(u U) fp.List[W] { return Of(k(u)) }).ToSeq()), fp.Seq[W](FlatMap(mk(2, fp.Seq[T]{a, b}), func(t T) fp.List[W] { return FlatMap(inner2(0, q, g, h)(t), func(u U) fp.List[W] { return Of(k(u)) }) }).ToSeq()))
+//@   tag associativity
+//@   ensures Eq(fp.Seq[U](Map(mk(2, pre(a, b, c, n)), g).ToSeq()), fp.Seq[U](FlatMap(mk(2, pre(a, b, c, n)), func(t T) fp.List[U] { return Of(g(t)) }).ToSeq()))
+//@   tag mapIsFlatMapUnit
+//
+// ---------------------------------------------------------------------------
+// Folds.  Fold / FoldTry / FoldError / FoldOption / FoldLeft agree with the
+// eager seq.Fold… on the same elements, including the order of the callback
+// invocations (EqT) and where they stop.
+//
+//@ import "github.com/csgura/fp/lazy"
+//
+//@ lemma listFold[A, B any](a, b, c A, n int, zero B, f func(B, A) B)
+//@   prop C12 C11
+//@   option unroll
+//@   requires 0 <= n && n <= 3
+//@   ensures EqT(Fold(mk(0, pre(a, b, c, n)), zero, f), seq.Fold(pre(a, b, c, n), zero, f)) && EqT(Fold(mk(1, pre(a, b, c, n)), zero, f), seq.Fold(pre(a, b, c, n), zero, f))
+//@   tag foldEager
+//@   ensures EqT(Fold(mk(2, pre(a, b, c, n)), zero, f), seq.Fold(pre(a, b, c, n), zero, f)) && EqT(Fold(mk(3, pre(a, b, c, n)), zero, f), seq.Fold(pre(a, b, c, n), zero, f))
+//@   tag foldLazy
+//@   ensures Eq(FoldLeft(mk(0, pre(a, b, c, n)), zero, f), seq.Fold(pre(a, b, c, n), zero, f)) && Eq(FoldLeft(mk(2, pre(a, b, c, n)), zero, f), seq.Fold(pre(a, b, c, n), zero, f))
+//@   tag foldLeft
+//@   ensures Eq(FoldLeftUsingMap(mk(1, pre(a, b, c, n)), zero, f), seq.Fold(pre(a, b, c, n), zero, f)) && Eq(FoldLeftUsingMap(mk(3, pre(a, b, c, n)), zero, f), seq.Fold(pre(a, b, c, n), zero, f))
+//@   tag foldLeftUsingMap
+//
+//@ ghost
+//@ func foldr[A, B any](e fp.Seq[A], zero B, g func(A, B) B) B {
+//@ 	acc := zero
+//@ 	for i := len(e) - 1; i >= 0; i-- {
+//@ 		acc = g(e[i], acc)
+//@ 	}
+//@ 	return acc
+//@ }
+//@ func strict[A, B any](g func(A, B) B) func(A, lazy.Eval[B]) lazy.Eval[B] {
+//@ 	return func(x A, acc lazy.Eval[B]) lazy.Eval[B] {
+//@ 		return lazy.Done(g(x, acc.Get()))
+//@ 	}
+//@ }
+//@ end
+//
+//@ lemma listFoldRight[A, B any](a, b, c A, n int, zero B, g func(A, B) B, k func(A) B, gi func(int) A)
+//@   prop C12 C11
+//@   option unroll
+//@   requires 0 <= n && n <= 3
+//@   ensures Eq(FoldRight(mk(0, pre(a, b, c, n)), zero, strict(g)).Get(), foldr(pre(a, b, c, n), zero, g)) && Eq(FoldRight(mk(2, pre(a, b, c, n)), zero, strict(g)).Get(), foldr(pre(a, b, c, n), zero, g))
+//@   tag foldRight
+//@   ensures Eq(FoldRight(mk(2, pre(a, b, c, n)), zero, strict(g)).Get(), seq.FoldRight(pre(a, b, c, n), zero, strict(g)).Get())
+//@   tag foldRightAgreesWithSeq
+//@   ensures Eq(FoldRightUsingMap(mk(1, pre(a, b, c, n)), zero, g), foldr(pre(a, b, c, n), zero, g)) && Eq(FoldRightUsingMap(mk(3, pre(a, b, c, n)), zero, g), foldr(pre(a, b, c, n), zero, g))
+//@   tag foldRightUsingMap
+//@   ensures EqT(FoldRight(gen(gi, 3), zero, func(x A, acc lazy.Eval[B]) lazy.Eval[B] { return lazy.Done(k(x)) }).Get(), k(gi(0)))
+//@   tag foldRightShortCircuits
+//
+//@ lemma listReduceFoldMap[A, M any](a, b, c A, n int, x, y, z M, m fp.Monoid[M], f func(A) M)
+//@   prop C12 C11
+//@   option unroll
+//@   requires 0 <= n && n <= 3
+//@   ensures Eq(Reduce(mk(2, pre(x, y, z, n)), m), foldr(pre(x, y, z, n), m.Empty(), m.Combine)) && Eq(Reduce(mk(0, pre(x, y, z, n)), m), foldr(pre(x, y, z, n), m.Empty(), m.Combine))
+//@   tag reduceIsRightFold
+//@   ensures Eq(FoldMap(mk(3, pre(a, b, c, n)), m, f), foldr(seq.Map(pre(a, b, c, n), f), m.Empty(), m.Combine)) && Eq(FoldMap(mk(1, pre(a, b, c, n)), m, f), foldr(seq.Map(pre(a, b, c, n), f), m.Empty(), m.Combine))
+//@   tag foldMapIsRightFold
+//
+//@ lemma listReduceAgreesWithSeq[A, M any](a, b, c A, n int, x, y, z M, m fp.Monoid[M], f func(A) M)
+//@   prop C12 C11
+//@   option unroll
+//@   requires 0 <= n && n <= 3
+//@   requires forall p M, q M, r M :: Eq(m.Combine(m.Combine(p, q), r), m.Combine(p, m.Combine(q, r)))
+//@   requires forall p M :: Eq(m.Combine(m.Empty(), p), p) && Eq(m.Combine(p, m.Empty()), p)
+//@   ensures Eq(Reduce(mk(2, pre(x, y, z, n)), m), seq.Reduce(pre(x, y, z, n), m))
+//@   tag reduce
+//@   ensures Eq(FoldMap(mk(2, pre(a, b, c, n)), m, f), seq.FoldMap(pre(a, b, c, n), m, f))
+//@   tag foldMap
+//
+//@ lemma listFoldShortCircuit[A, B any](a, b, c A, n int, zero B, ft func(B, A) fp.Try[B], fe func(A) error)
+//@   prop C12 C11 C02
+//@   option unroll
+//@   requires 0 <= n && n <= 3
+//@   ensures EqT(FoldTry(mk(0, pre(a, b, c, n)), zero, ft), seq.FoldTry(pre(a, b, c, n), zero, ft)) && EqT(FoldTry(mk(1, pre(a, b, c, n)), zero, ft), seq.FoldTry(pre(a, b, c, n), zero, ft))
+//@   tag foldTryEager
+//@   ensures EqT(FoldTry(mk(2, pre(a, b, c, n)), zero, ft), seq.FoldTry(pre(a, b, c, n), zero, ft)) && EqT(FoldTry(mk(3, pre(a, b, c, n)), zero, ft), seq.FoldTry(pre(a, b, c, n), zero, ft))
+//@   tag foldTryLazy
+//@   ensures EqT(FoldError(mk(0, pre(a, b, c, n)), fe), seq.FoldError(pre(a, b, c, n), fe)) && EqT(FoldError(mk(1, pre(a, b, c, n)), fe), seq.FoldError(pre(a, b, c, n), fe))
+//@   tag foldErrorEager
+//@   ensures EqT(FoldError(mk(2, pre(a, b, c, n)), fe), seq.FoldError(pre(a, b, c, n), fe)) && EqT(FoldError(mk(3, pre(a, b, c, n)), fe), seq.FoldError(pre(a, b, c, n), fe))
+//@   tag foldErrorLazy
+//
+// FoldOption (terminates; agrees with seq.FoldOption).
+// KNOWN DEFECT (reported; singleton / agreesWithSeq* are refuted by the unmodified code): the loop
+// of list.FoldOption never advances its cursor, so it does not terminate on a non-empty list
+// unless f returns None.
+//
+//@ lemma listFoldOption[A, B any](a, b, c A, n int, zero B, fo func(B, A) fp.Option[B])
+//@   prop C12 C11 C02
+//@   option unroll
+//@   requires 0 <= n && n <= 3
+//@   ensures Eq(FoldOption(mk(0, pre(a, b, c, 0)), zero, fo), fp.Some(zero))
+//@   tag empty
+//@   ensures !fo(zero, a).IsDefined() ==> EqT(FoldOption(mk(0, fp.Seq[A]{a, b, c}), zero, fo), fo(zero, a))
+//@   tag stopsAtFirstNone
+//@   ensures fo(zero, a).IsDefined() ==> Eq(FoldOption(Of(a), zero, fo), fo(zero, a))
+//@   tag singleton
+//@   ensures EqT(FoldOption(mk(0, pre(a, b, c, n)), zero, fo), seq.FoldOption(pre(a, b, c, n), zero, fo))
+//@   tag agreesWithSeq
+//@   ensures EqT(FoldOption(mk(2, pre(a, b, c, n)), zero, fo), seq.FoldOption(pre(a, b, c, n), zero, fo))
+//@   tag agreesWithSeqLazy
+//
+//@ lemma listMinMax[T any](a, b, c T, ord fp.Ord[T])
+//@   prop C12 C11
+//@   option unroll
+//@   requires ord.Less(a, b) && ord.Less(b, c) && ord.Less(a, c) && !ord.Less(b, a) && !ord.Less(c, b) && !ord.Less(c, a)
+//@   ensures Eq(Min(mk(2, fp.Seq[T]{a, b, c}), ord), fp.Some(a)) && Eq(Min(mk(0, fp.Seq[T]{c, a, b}), ord), fp.Some(a)) && Eq(Min(mk(3, fp.Seq[T]{b, c, a}), ord), fp.Some(a))
+//@   tag min
+//@   ensures Eq(Max(mk(2, fp.Seq[T]{a, b, c}), ord), fp.Some(c)) && Eq(Max(mk(0, fp.Seq[T]{c, a, b}), ord), fp.Some(c)) && Eq(Max(mk(3, fp.Seq[T]{b, c, a}), ord), fp.Some(c))
+//@   tag max
+//@   ensures !Min(mk(2, fp.Seq[T]{}), ord).IsDefined() && !Max(Empty[T](), ord).IsDefined() && Eq(Min(Of(b), ord), fp.Some(b)) && Eq(Max(Of(b), ord), fp.Some(b))
+//@   tag emptyAndSingle
+//@   ensures Eq(Min(mk(1, fp.Seq[T]{b, c, a}), ord), seq.Min(fp.Seq[T]{b, c, a}, ord)) && Eq(Max(mk(1, fp.Seq[T]{b, c, a}), ord), seq.Max(fp.Seq[T]{b, c, a}, ord))
+//@   tag agreesWithSeq
+//
+// ---------------------------------------------------------------------------
+// Conversions to maps and sets, GroupBy, Sort.
+//
+//@ lemma listToGoMap[K comparable, V any](k1, k2 K, v1, v2, v3 V)
+//@   prop C12
+//@   option unroll
+//@   requires k1 != k2
+//@   ensures len(ToGoMap(mk(2, fp.Seq[fp.Tuple2[K, V]]{{I1: k1, I2: v1}, {I1: k2, I2: v2}, {I1: k1, I2: v3}}))) == 2
+//@   tag size
+//@   ensures Eq(ToGoMap(mk(2, fp.Seq[fp.Tuple2[K, V]]{{I1: k1, I2: v1}, {I1: k2, I2: v2}, {I1: k1, I2: v3}}))[k1], v3) && Eq(ToGoMap(mk(3, fp.Seq[fp.Tuple2[K, V]]{{I1: k1, I2: v1}, {I1: k2, I2: v2}, {I1: k1, I2: v3}}))[k2], v2)
+//@   tag lastBindingWins
+//@   ensures len(ToGoMap(Empty[fp.Tuple2[K, V]]())) == 0
+//@   tag empty
+//
+//@ lemma listToGoSet[K comparable](k1, k2, k3 K)
+//@   prop C12
+//@   option unroll
+//@   requires k1 != k2 && k1 != k3 && k2 != k3
+//@   ensures len(ToGoSet(mk(2, fp.Seq[K]{k1, k2, k2}))) == 2 && verifspec.Has(ToGoSet(mk(2, fp.Seq[K]{k1, k2, k2})), k1) && verifspec.Has(ToGoSet(mk(3, fp.Seq[K]{k1, k2, k2})), k2) && !verifspec.Has(ToGoSet(mk(0, fp.Seq[K]{k1, k2, k2})), k3)
+//@   tag members
+//@   ensures len(ToGoSet(mk(1, fp.Seq[K]{k1, k1, k3}))) == 2 && verifspec.Has(ToGoSet(mk(1, fp.Seq[K]{k1, k1, k3})), k3) && len(ToGoSet(Empty[K]())) == 0
+//@   tag lastMember
+//
+//@ lemma listGroupBy[A any, K comparable](a, b A, key func(A) K)
+//@   prop C12
+//@   option unroll
+//@   option timeout=20
+//@   ensures key(a) != key(b) ==> len(GroupBy(mk(2, fp.Seq[A]{a, b}), key)) == 2
+//@   tag size
+//@   ensures key(a) != key(b) ==> len(GroupBy(mk(2, fp.Seq[A]{a, b}), key)[key(b)]) == 1
+//@   tag groupSize
+//@   ensures key(a) != key(b) ==> Eq(GroupBy(mk(2, fp.Seq[A]{a, b}), key)[key(b)][0], b)
+//@   tag groupElem
+//@   ensures key(a) == key(b) ==> len(GroupBy(mk(2, fp.Seq[A]{a, b}), key)[key(b)]) == 2 && len(GroupBy(mk(2, fp.Seq[A]{a, b}), key)) == 1
+//@   tag sameKeySize
+// (the elements of a group that received two values are not stated: `…[key(a)][0] == a` is refuted
+// by a spurious model — copy() out of a slice read back from the map inside Seq.Append — and
+// `Eq(…[key(a)], fp.Seq[A]{a, b})` times out; the real code returns [a b])
+//
+// Sort: sort.Sort is a trusted model (ordered afterwards; a permutation given a
+// correct Swap), so the statement is about the sorter and the shape of the result.
+//
+//@ func (*seqSorter).Swap(p, i, j)
+//@   prop C12 C10
+//@   option frame=off
+//@   requires p != nil && p.ord != nil && 0 <= i && i < len(p.seq) && 0 <= j && j < len(p.seq)
+//@   ensures Eq(p.seq[i], Old(p.seq[j])) && Eq(p.seq[j], Old(p.seq[i]))
+//@   ensures forall k int :: 0 <= k && k < len(p.seq) && k != i && k != j ==> Eq(p.seq[k], Old(p.seq[k]))
+//@   ensures len(p.seq) == Old(len(p.seq))
+//
+//@ func (*seqSorter).Less(p, i, j) result
+//@   prop C12 C10
+//@   requires p != nil && p.ord != nil && 0 <= i && i < len(p.seq) && 0 <= j && j < len(p.seq)
+//@   ensures result == p.ord.Less(p.seq[i], p.seq[j]) && Unchanged()
+//
+//@ func (*seqSorter).Len(p) result
+//@   prop C12 C10
+//@   requires p != nil
+//@   ensures result == len(p.seq) && Unchanged()
+//
+//@ ghost
+//@ func sortOK[T any](kind int, a, b, c T, ord fp.Ord[T]) bool {
+//@ 	r := Sort(mk(kind, fp.Seq[T]{c, a, b}), ord)
+//@ 	return len(r) == 3 && !ord.Less(r[1], r[0]) && !ord.Less(r[2], r[1]) && !ord.Less(r[2], r[0]) && Unchanged()
+//@ }
+//@ end
+//
+//@ lemma listSort[T any](a, b, c T, ord fp.Ord[T])
+//@   prop C12
+//@   option unroll
+//@   ensures sortOK(2, a, b, c, ord)
+//@   tag collect
+//@   ensures sortOK(0, a, b, c, ord)
+//@   tag seq
+//
+//@ lemma listToMapSet[K, V any](k1, k2 K, v1, v2 V, h fp.Hashable[K])
+//@   prop C12
+//@   option unroll
+//@   requires !h.Eqv(k1, k2) && !h.Eqv(k2, k1) && h.Eqv(k1, k1) && h.Eqv(k2, k2)
+//@   ensures ToMap(mk(2, fp.Seq[fp.Tuple2[K, V]]{{I1: k1, I2: v1}, {I1: k2, I2: v2}}), h).Size() == 2
+//@   tag toMap
+//@   ensures ToSet(mk(2, fp.Seq[K]{k1, k2}), h).Size() == 2
+//@   tag toSet
+//@   ensures Eq(ToMap(mk(2, fp.Seq[fp.Tuple2[K, V]]{{I1: k1, I2: v1}, {I1: k2, I2: v2}}), h).Get(k2), fp.Some(v2)) && Eq(ToMap(mk(3, fp.Seq[fp.Tuple2[K, V]]{{I1: k1, I2: v1}, {I1: k2, I2: v2}}), h).Get(k1), fp.Some(v1))
+//@   tag toMapBindings
+//@   ensures ToSet(mk(2, fp.Seq[K]{k1, k2}), h).Contains(k1) && ToSet(mk(3, fp.Seq[K]{k1, k2}), h).Contains(k2)
+//@   tag toSetMembers
+//
+// FoldFuture (bounded, futures already completed or completed later by the test).
+//
+//@ ghost
+//@ func foldFutureOK[A, B any](kind int, a, b A, zero B, f func(B, A) B) bool {
+//@ 	step := func(acc B, v A) fp.Future[B] {
+//@ 		p := fp.NewPromise[B]()
+//@ 		p.Success(f(acc, v))
+//@ 		return p.Future()
+//@ 	}
+//@ 	r := FoldFuture(mk(kind, fp.Seq[A]{a, b}), zero, step)
+//@ 	verifspec.RunSpawned()
+//@ 	if verifspec.TraceLen() != 2 {
+//@ 		return false
+//@ 	}
+//@ 	e := FoldFuture(mk(kind, fp.Seq[A]{}), zero, step)
+//@ 	verifspec.RunSpawned()
+//@ 	if verifspec.TraceLen() != 2 || !e.IsCompleted() || !verifspec.Eq(verifspec.W(e.Value()), verifspec.W(fp.Success(zero))) {
+//@ 		return false
+//@ 	}
+//@ 	return r.IsCompleted() && verifspec.Spawned() == 0 && verifspec.Eq(verifspec.W(r.Value()), verifspec.W(fp.Success(f(f(zero, a), b))))
+//@ }
+//@ end
+//
+//@ lemma listFoldFuture[A, B any](a, b A, zero B, f func(B, A) B)
+//@   prop C12
+//@   option unroll
+//@   ensures foldFutureOK(2, a, b, zero, f)
+//@   tag collect
+//@   ensures foldFutureOK(0, a, b, zero, f)
+//@   tag seq
+//
+// ---------------------------------------------------------------------------
+// Pipelines over an arbitrary single-pass source r (unbounded length) and over
+// infinite generators: a finite prefix terminates and pulls / evaluates only
+// what it needs (Collect holds one element per forced cell).
+//
+//@ ghost
+//@ func pipePrefix[T, U any](r fp.Iterator[T], fn func(T) U, mode int) bool {
+//@ 	if verifspec.IterLen(r) < 3 {
+//@ 		return true
+//@ 	}
+//@ 	e0 := verifspec.IterAt[T](r, 0)
+//@ 	e1 := verifspec.IterAt[T](r, 1)
+//@ 	if mode == 0 {
+//@ 		p := Map(Collect(r), fn)
+//@ 		if verifspec.IterPos(r) != 1 || verifspec.TraceLen() != 0 {
+//@ 			return false
+//@ 		}
+//@ 		h1 := p.Tail().Head()
+//@ 		if verifspec.IterPos(r) != 2 || !verifspec.CalledOnce(fn, e1) {
+//@ 			return false
+//@ 		}
+//@ 		return same(h1, fn(e1)) && same(p.Head(), fn(e0)) && verifspec.IterPos(r) == 2
+//@ 	}
+//@ 	if mode == 1 {
+//@ 		p := ZipWithIndex(Collect(r))
+//@ 		h1 := p.Tail().Head()
+//@ 		return verifspec.IterPos(r) == 2 && same(h1, fp.Tuple2[int, T]{I1: 1, I2: e1}) && same(p.Head(), fp.Tuple2[int, T]{I1: 0, I2: e0}) && verifspec.IterPos(r) == 2
+//@ 	}
+//@ 	if mode == 2 || mode == 4 {
+//@ 		// mode 4 (strict): construction and Head need the first source element only, the first three
+//@ 		// output elements the first two.
+//@ 		// mode 2: what the code does — FlatMap forces opt.Tail() when it is constructed, and the
+//@ 		// recursive FlatMap is constructed when the first Tail is forced: up to two cells ahead.
+//@ 		p := FlatMap(Collect(r), func(t T) fp.List[T] { return Of(t, t) })
+//@ 		if mode == 4 && verifspec.IterPos(r) != 1 {
+//@ 			return false
+//@ 		}
+//@ 		h0 := p.Head()
+//@ 		if verifspec.IterPos(r) > 2 || (mode == 4 && verifspec.IterPos(r) != 1) {
+//@ 			return false
+//@ 		}
+//@ 		h1 := p.Tail().Head()
+//@ 		h2 := p.Tail().Tail().Head()
+//@ 		if mode == 4 && verifspec.IterPos(r) != 2 {
+//@ 			return false
+//@ 		}
+//@ 		return verifspec.IterPos(r) <= 3 && same(h0, e0) && same(h1, e0) && same(h2, e1) && same(p.Head(), e0)
+//@ 	}
+//@ 	if mode == 5 {
+//@ 		// Scan forces s.Tail() together with the accumulator: one cell ahead
+//@ 		p := Scan(Collect(r), fn(e0), func(acc U, t T) U { return fn(t) })
+//@ 		h1 := p.Tail().Head()
+//@ 		return verifspec.IterPos(r) <= 2 && same(h1, fn(e0)) && same(p.Tail().Tail().Head(), fn(e1)) && verifspec.IterPos(r) <= 3
+//@ 	}
+//@ 	p := Combine(Collect(r), Of(e0))
+//@ 	h1 := p.Tail().Head()
+//@ 	return verifspec.IterPos(r) == 2 && same(h1, e1) && same(p.Head(), e0)
+//@ }
+//@ end
+//
+//@ lemma listPipelinePrefix[T, U any](r fp.Iterator[T], fn func(T) U)
+//@   prop C12 C20
+//@   ensures pipePrefix(r, fn, 0)
+//@   tag map
+//@   ensures pipePrefix(r, fn, 1)
+//@   tag zipWithIndex
+//@   ensures pipePrefix(r, fn, 2)
+//@   tag flatMapAtMostTwoCellsAhead
+//@   ensures pipePrefix(r, fn, 5)
+//@   tag scanAtMostOneCellAhead
+//@   ensures pipePrefix(r, fn, 3)
+//@   tag combine
+//
+//@ lemma listInfinite[T, U any](a T, r1 func(T) T, fn func(T) U, zero U, f func(U, T) U)
+//@   prop C12
+//@   ensures EqT(Map(Recurrence1(a, r1), fn).Tail().Tail().Head(), fn(r1(r1(a))))
+//@   tag map
+//@   ensures EqT(Zip(Recurrence1(a, r1), Map(Recurrence1(a, r1), fn)).Tail().Head(), fp.Tuple2[T, U]{I1: r1(a), I2: fn(r1(a))})
+//@   tag zip
+//@   ensures Eq(FlatMap(Recurrence1(a, r1), func(t T) fp.List[U] { return Of(fn(t)) }).Tail().Head(), fn(r1(a)))
+//@   tag flatMap
+//@   ensures Eq(Scan(Recurrence1(a, r1), zero, f).Tail().Tail().Head(), f(f(zero, a), r1(a)))
+//@   tag scan
+//@   ensures EqT(Combine(Recurrence1(a, r1), Of(a)).Tail().Head(), r1(a))
+//@   tag combine
+//@   ensures EqT(ZipWithIndex(Recurrence1(a, r1)).Tail().Tail().Head(), fp.Tuple2[int, T]{I1: 2, I2: r1(r1(a))})
+//@   tag zipWithIndex
+//
+// SUSPECTED DEFECT (laziness, reported; refuted by the unmodified code): FlatMap evaluates
+// `opt.Tail()` eagerly when it is constructed instead of inside its thunks, so a FlatMap over
+// Collect(it) pulls a second element from `it` before anything is demanded and a third one for the
+// second output element, which needs only the first.
+//
+//@ lemma listFlatMapStrictlyLazy[T, U any](r fp.Iterator[T], fn func(T) U)
+//@   prop C12
+//@   ensures pipePrefix(r, fn, 4)
